@@ -12,6 +12,15 @@
 (*   op.new.post  [kind, class, id]  ProbeStorage constructed storage `id`  *)
 (*   op.run.post  [id]               the `op` closure ran on storage `id`   *)
 (*   op.done.post d                  the call returned d                    *)
+(* Held-lock runs: a visit_* callback / retain_* predicate parks inside the  *)
+(* last non-empty shard of its kind (`hold.enter`: the walk up to that shard *)
+(* happened, its lock is held) while a second thread calls the registry;    *)
+(* the calls of the second thread that completed before the driver let the  *)
+(* parked thread go (`hold.release`) are logged before that line, the others *)
+(* after it (two active threads, the parked one changes nothing any more:   *)
+(* both placements are exact).  A call logged before `hold.release` must be *)
+(* enabled while the lock is held: clear() / retain / delete / insert on a  *)
+(* locked shard cannot have returned.                                       *)
 (* Real-parallel trials (`free`) have no total order: schedule-independent  *)
 (* facts only (FreeOK).                                                     *)
 EXTENDS Registry, Json, IOUtils, TLCExt
@@ -106,6 +115,14 @@ TraceNext ==
        [] Ev = "op.done.post" -> /\ exp # <<>> /\ Head(exp)[1] = "done" /\ Head(exp)[2] = P
                                  /\ DoneMatches(Head(exp)[3], D)
                                  /\ Go(Tail(exp)) /\ UNCHANGED vars
+       [] Ev = "hold.enter"   -> \* the callback that parks was called on an entry of shard D.s, the last non-empty one
+                                 /\ exp = <<>>
+                                 /\ D.op \in {"visit", "retain"}
+                                 /\ <<D.last[1], D.last[2]>> \in shards[D.k][D.s]
+                                 /\ \A s2 \in Shards : s2 > D.s => shards[D.k][s2] = {}
+                                 /\ ScanUntilHold(P, D.op, D.k, SeqSet(D.keep), D.s)
+                                 /\ Go(<<>>)
+       [] Ev = "hold.release" -> exp = <<>> /\ ScanFinishFrom(P) /\ Go(<<XDone(P, res'[P])>>)
        [] Ev = "final"        -> Obs(/\ exp = <<>>
                                      /\ \A t \in Threads : pc[t] = "idle"
                                      /\ D.constructed = nextId - 1
